@@ -295,6 +295,10 @@ def cases(draw):
         curves.append([m, u, v[1], d, [repr(float(i + j * 10)) for i in range(nrows)]])
     other_lines = draw(st.lists(st.text(S.TEXT_CHARS.replace("~", "") + " :", min_size=1, max_size=30).map(str.strip).filter(
         lambda t: t and not t.startswith("~")), max_size=3))
+    if len(other_lines) >= 2 and draw(st.booleans()):
+        # paragraphs: empty lines between the first and the last line belong to the text
+        k = draw(st.integers(1, len(other_lines) - 1))
+        other_lines[k:k] = [""] * draw(st.integers(1, 2))
     desc = dict(version=vextra, well=well, params=params, curves=curves, other="\n".join(other_lines),
                 strt_unit=draw(st.sampled_from(["m", "M", "FT", ""])), null=draw(st.sampled_from([["f", "-9999.25"], ["f", "-999.25"], ["i", -999]])))
     case = dict(desc=desc, version=version, mnemonic_case=draw(st.sampled_from(["preserve", "upper", "lower"])),
